@@ -44,6 +44,8 @@ Inductive sec :=
   | SEvictEnd              (*   mu.Unlock *)
   | SAppend                (* entity Lock { append to staging } *)
   | SNotify (slot : bool)  (* entityUpdated: mu.Lock { excerpt of cached[id] } ; slot: error goes to e1 (false) / e2 (true) *)
+  | SNotifyRd              (* an entityUpdated that is NOT the code's: mu.RLock { cached[id] }; excerpt computed, no lock held *)
+  | SNotifySt              (*   ... mu.Lock { excerpts[id] = that excerpt }   (CacheExcerpt.split_notify_stale) *)
   | SCommit                (* entity Lock { Entity.Commit } *)
   | SCreate                (* bug.Create + Commit: the new ref *)
   | SAdd                   (* SubCache.add: mu.Lock { cached[id] = instance } *)
@@ -209,6 +211,31 @@ Definition exec (fixed : bool) (t : nat) (s : shared) (th : thr) : option (share
         | None => Some (s, if slot then fail2 th 2 rest else fail1 th 2 rest)
         end
       else None
+  | SNotifyRd :: rest =>
+      if is_none (cown s) then
+        let b := match reg th with
+                 | Some i => match nth_error (insts s) i with Some ins => i_bug ins | None => cbug th end
+                 | None => cbug th end in
+        match cached s b with
+        | Some j =>
+            match nth_error (insts s) j with
+            | Some ins => Some (s, mkthr rest (reg th) (Some [concat (i_chain ins) ++ i_stage ins]) (kind th) (cbug th) (curop th) (e1 th) (e2 th) (results th))
+            | None => Some (s, set_code th rest)
+            end
+        | None => Some (s, fail1 th 2 rest)
+        end
+      else None
+  | SNotifySt :: rest =>
+      if is_none (cown s) then
+        let b := match reg th with
+                 | Some i => match nth_error (insts s) i with Some ins => i_bug ins | None => cbug th end
+                 | None => cbug th end in
+        match rdbuf th with
+        | Some ch => Some (mksh (git s) (insts s) (cached s) (lru s) (maxl s) (cown s)
+                                (fupd (excerpt s) b (Some (concat ch))) (nextop s) (nextbug s), set_code th rest)
+        | None => Some (s, set_code th rest)
+        end
+      else None
   | SCommit :: rest =>
       match reg th with
       | None => Some (s, fail2 th 4 rest)
@@ -281,8 +308,10 @@ Definition ackedb (r : callres) : bool :=
 (* the state after the set-up of a run: n bugs with one stored operation each; loaded (same session) or not (reopened cache) *)
 Fixpoint init_git (n : nat) : nat -> option chain :=
   match n with 0 => fun _ => None | S k => fupd (init_git k) (S k) (Some [[S k]]) end.
+(* (the excerpts of a cache that was just opened are those of the stored histories) *)
 Definition init_cold (n maxloaded : nat) : shared :=
-  mksh (init_git n) [] (fun _ => None) [] maxloaded None (fun _ => None) (S n) (S n).
+  mksh (init_git n) [] (fun _ => None) [] maxloaded None
+       (fun b => match init_git n b with Some ch => Some (concat ch) | None => None end) (S n) (S n).
 
 (* ------------------------------------------------------------------------------------------------ *)
 (* Invariant of the repaired cache.  Stated over the components it depends on, so that sections which
@@ -736,3 +765,8 @@ Proof. intros c. apply forallb_forall. intros r Hr. apply in_flat_map in Hr as (
   { apply (run_cls fixed sched (init_cold n m, map thread_of progs)); [|exact Hth]. cbn. intros u Hu.
     apply in_map_iff in Hu as (p & <- & _). repeat split. }
   unfold classes_ok in C. rewrite forallb_forall in C. exact (C r Hr). Qed.
+
+(* ------------------------------------------------------------------------------------------------ *)
+(* Excerpts.  A call "missed" the excerpt of its bug when entityUpdated did not find the entity in the cache
+   (class 2, the entity was evicted under the caller) or SubCache.add refused the new bug (class 4). *)
+Definition missedb (r : callres) : bool := Nat.eqb (r_e1 r) 2 || Nat.eqb (r_e1 r) 4 || Nat.eqb (r_e2 r) 2.
